@@ -56,4 +56,57 @@ theorem concurrent_answers_eq_sequential' {T Q A : Type} (answer : T → Q → A
   rw [iter_answer answer t (qs i) [] _ h]
   simp
 
+/-! ### steps that may write the shared structure -/
+
+theorem schedule_independent_W' {T S : Type} (P : S → Prop) (f : T → S → T × S) (hf : FrameOn P f)
+    (s : Sys T S) (hP : ∀ i, P (s.st i)) (σ : List Nat) :
+    (runW f s σ).tree = s.tree ∧
+    (∀ i, (runW f s σ).st i = iter (fun x => (f s.tree x).2) (σ.count i) (s.st i)) ∧
+    ∀ i, P ((runW f s σ).st i) := by
+  induction σ generalizing s with
+  | nil => exact ⟨rfl, fun i => by simp [runW, iter], hP⟩
+  | cons j rest ih =>
+    obtain ⟨h1, h2⟩ := hf s.tree (s.st j) (hP j)
+    have htree : (stepW f s j).tree = s.tree := h1
+    have hP' : ∀ i, P ((stepW f s j).st i) := by
+      intro i
+      by_cases hij : i = j
+      · subst hij; simpa [stepW] using h2
+      · simpa [stepW, hij] using hP i
+    obtain ⟨ht, hs, hp⟩ := ih (stepW f s j) hP'
+    refine ⟨by simpa [runW, htree] using ht, fun i => ?_, fun i => by simpa [runW] using hp i⟩
+    have h := hs i
+    simp only [runW]
+    rw [h, htree]
+    by_cases hji : j = i
+    · subst hji
+      simp [stepW, List.count_cons_self, iter]
+    · have : i ≠ j := fun h => hji h.symm
+      simp [stepW, this, List.count_cons_of_ne hji]
+
+/-- what a thread ends with is what it ends with when the SAME number of its steps run alone -/
+theorem same_as_alone' {T S : Type} (P : S → Prop) (f : T → S → T × S) (hf : FrameOn P f)
+    (s : Sys T S) (hP : ∀ i, P (s.st i)) (σ : List Nat) (i : Nat) :
+    (runW f s σ).st i = (runW f s (List.replicate (σ.count i) i)).st i := by
+  obtain ⟨_, h1, _⟩ := schedule_independent_W' P f hf s hP σ
+  obtain ⟨_, h2, _⟩ := schedule_independent_W' P f hf s hP (List.replicate (σ.count i) i)
+  rw [h1 i, h2 i, List.count_replicate_self]
+
+/-- instructions that all land in private memory satisfy the frame condition, at instruction
+    granularity -/
+theorem instr_frame_of {Sh Pr : Type} (Q : Instr Sh Pr → Prop) (hQ : ∀ ins, Q ins → ins.target = .priv) :
+    FrameOn (fun th : Thread Sh Pr => ∀ ins ∈ th.prog, Q ins) instrStep := by
+  intro sh th hth
+  cases hprog : th.prog with
+  | nil =>
+    refine ⟨by simp [instrStep, hprog], ?_⟩
+    simp [instrStep, hprog]
+  | cons ins rest =>
+    have hin : ins ∈ th.prog := by simp [hprog]
+    have hpriv := hQ ins (hth ins hin)
+    refine ⟨by simp [instrStep, hprog, Instr.exec, hpriv], ?_⟩
+    intro ins' hins'
+    have : ins' ∈ rest := by simpa [instrStep, hprog] using hins'
+    exact hth ins' (by simp [hprog, this])
+
 end Orb.C19
